@@ -413,6 +413,12 @@ def _type_from_runtime(
     origin = get_origin(val)
     if origin is not None:
         args = get_args(val)
+        if getattr(val, "__unpacked__", False):
+            # *tuple[int, ...] is another way to write Unpack[tuple[int, ...]]
+            if not allow_unpack:
+                ctx.show_error("Invalid usage of Unpack")
+                return AnyValue(AnySource.error)
+            return UnpackedValue(_value_of_origin_args(origin, args, val, ctx))
         return _value_of_origin_args(
             origin, args, val, ctx, allow_unpack=allow_unpack, is_typeddict=is_typeddict
         )
@@ -998,6 +1004,12 @@ class _Visitor(ast.NodeVisitor):
         else:
             members = (index,)
         return _SubscriptedValue(value, members)
+
+    def visit_Starred(self, node: ast.Starred) -> Value:
+        # *tuple[int, ...] is another way to write Unpack[tuple[int, ...]]
+        return _SubscriptedValue(
+            KnownValue(typing_extensions.Unpack), (self.visit(node.value),)
+        )
 
     def visit_Attribute(self, node: ast.Attribute) -> Optional[Value]:
         root_value = self.visit(node.value)
